@@ -325,8 +325,8 @@ Spec == Init /\ [][Next]_vars
 
 (* ============================== what TLC checks ============================== *)
 Id(n) == [i \in 1..n |-> i]
-Chunked == pc \in {"scan", "concat", "build"}
-InputsInDomain == WellFormed(x)
+Chunked == pc = "scan" /\ nextT = 1           \* the state MakeChunks leads to (chunks never change afterwards)
+InputsInDomain == pc = "classify" => WellFormed(x)
 \* every feature and identifier column is scanned exactly once, no empty task
 AllColumnsOnce == Chunked =>
    /\ UNION {Range(chunks[k]) : k \in 1..Len(chunks)} = Range(cls.features) \cup Range(cls.ids)
